@@ -183,6 +183,7 @@ func c12Worker(e *Env) *res.Result {
 	prop := func(t *rapid.T) {
 		c := specgen.NewCtx(t, disabled)
 		d := c.MapFat()
+		specgen.DecorateOps(t, d)
 		cfg := drawConfig(t)
 		spec := d.JSON()
 		if n := 0; rapid.Bool().Draw(t, "decorate_extensions") {
